@@ -260,6 +260,9 @@ where
             // SAFETY: read from an eventfd owned by the harness.
             unsafe { libc::read(*fd, b.as_mut_ptr() as *mut libc::c_void, 8) };
         }
+        // E2: the entry of the backend's handler is a scheduling point of its own (a preemption
+        // between the library's enabled-check and the call); no-op without a controller
+        crate::sysshim::sched_point(crate::sysshim::Point::User("handle_event"), &|| true);
         let ring_size = vrings.get(device_event as usize).map(|v| v.get_ref().get_queue().size());
         let action = {
             let (m, _) = &*self.sh;
@@ -430,6 +433,33 @@ where
                 if start.elapsed() > Duration::from_secs(10) {
                     return ReqOut::Dead("no answer within 10 s and no panic recorded".into());
                 }
+            }
+        }
+    }
+
+    /// Non-blocking: one complete message if it is already there (sched mode).
+    pub fn try_recv_msg(&mut self) -> Option<ReqOut> {
+        let fd = self.fd();
+        if !crate::sysshim::readable(fd) {
+            return None;
+        }
+        let mut buf: Vec<u8> = Vec::new();
+        let mut nfds = 0;
+        loop {
+            let need = if buf.len() < 12 { 12 - buf.len() } else { 12 + rd32(&buf, 8) as usize - buf.len() };
+            if buf.len() >= 12 && need == 0 {
+                return Some(ReqOut::Msg(Decoded { code: rd32(&buf, 0), flags: rd32(&buf, 4), size: rd32(&buf, 8), payload: buf[12..].to_vec() }, nfds));
+            }
+            match recv_once(fd, need) {
+                Some((b, f)) => {
+                    if b.is_empty() {
+                        return Some(ReqOut::Closed);
+                    }
+                    nfds += f.len();
+                    self.pending_fds.extend(f);
+                    buf.extend_from_slice(&b);
+                }
+                None => return Some(ReqOut::Dead("partial message".into())),
             }
         }
     }
